@@ -12,6 +12,12 @@ def kinds_str(prog):
 def replay_case(case, oracle):
     """Re-execute one recorded case without the explorer and apply the oracle."""
     H.bind(case.get("p") or REC.BN128)
+    if case.get("bfs"):
+        from .. import bfs
+        hist = tuple(_tuplify(e) for e in case["hist"])
+        problems, outs, key, shape, too_big = bfs.run_history(tuple(case["init"]), hist, case["n"], case["p"])
+        return {"registers": case["init"], "history": case["hist"], "outcomes": outs,
+                "violations": [{"klass": pr[0], "event": list(pr[1]), "what": pr[2]} for pr in problems]}
     prog = case["prog"]
     prog = {"expr": _tuplify(prog["expr"]), "kinds": list(prog["kinds"])}
     o = E.execute(prog, tuple(case["vals"]), case["mode"], case["n"], True, case.get("p"), True)
